@@ -218,6 +218,10 @@ fn run_path<A: DShape, B: DShape>(g: &mut Grid, path: &[Op]) {
             Op::DropB => drop(r.arcs_b.pop()),
         });
         m.apply(op);
+        STEPS.with(|s| s.set(s.get() + 1));
+        STATES.with(|s| {
+            s.borrow_mut().insert(format!("{}|{}|{}|{}|{}|{}|{:?}", A::NAME, B::NAME, m.a_owners, m.b_owners, m.arcs_a, m.arcs_b, m.us));
+        });
         let evs = arena::events_since(e0);
         if op == Op::NewA {
             r.a_block = evs.iter().find(|e| e.kind == EvKind::Alloc).map(|e| e.addr).unwrap_or(0);
@@ -345,6 +349,12 @@ fn run_path<A: DShape, B: DShape>(g: &mut Grid, path: &[Op]) {
     }
 }
 
+thread_local! {
+    /// distinct (pair, model state) reached and operations executed, for the model_checking evidence
+    static STATES: std::cell::RefCell<std::collections::HashSet<String>> = std::cell::RefCell::new(Default::default());
+    static STEPS: std::cell::Cell<u64> = const { std::cell::Cell::new(0) };
+}
+
 pub fn pair<A: DShape, B: DShape>(g: &mut Grid, depth: usize, maxh: usize) {
     if size_of::<ArcUnion<A, B>>() != size_of::<usize>() || size_of::<Option<ArcUnion<A, B>>>() != size_of::<usize>() {
         g.fail("union-size", &format!("ArcUnion<{},{}>", A::NAME, B::NAME), format!("size {} / Option {}", size_of::<ArcUnion<A, B>>(), size_of::<Option<ArcUnion<A, B>>>()));
@@ -379,5 +389,9 @@ pub fn run(tier: &str) -> Vec<Grid> {
     } else {
         for_pairs!(pair, (gr, 6, 4); [D0a1, D1a1, D3a1, D8a8, D16a16, D64a64, D0a8]);
     }
+    let mut ex = vrt::json::J::obj();
+    ex.set("states", vrt::json::J::i(STATES.with(|s| s.borrow().len())));
+    ex.set("transitions", vrt::json::J::i(STEPS.with(|s| s.get())));
+    g.extra = ex;
     vec![g]
 }
